@@ -284,6 +284,42 @@ class Check:
 
     # ---- K + M: engines ----
     def engine(self, name, extra_args=(), timeout=1500, corr_name=None):
+        """Run an engine; a correspondence mismatch or monitor failure is confirmed by identical reruns.
+
+        The engines drive the real (concurrent) code and wait for quiescence; on a heavily loaded
+        machine a wait can expire and produce a spurious disagreement.  Every engine is a
+        deterministic function of its seed as far as the harness is concerned, so a genuine
+        violation shows again when the same seed is run again: a failure is reported when it shows
+        in the first run AND in at least one of two identical reruns.  A dead engine process
+        (panic / fatal error in the real code) is never retried: it is reported at once."""
+        import copy
+        keys = ("obligations", "breaks", "monitor", "known_hit", "cov")
+        snap = {k: copy.deepcopy(getattr(self, k)) for k in keys}
+        rep = self._engine_once(name, extra_args, timeout, corr_name)
+        def failed():
+            nb = self.breaks[len(snap["breaks"]):]
+            nm = self.monitor[len(snap["monitor"]):]
+            died = any(b["name"].startswith("engine-") for b in nb)
+            return (bool(nb) or bool(nm)), died
+        bad, died = failed()
+        if not bad or died or os.environ.get("VERIF_NO_RERUN"):
+            return rep
+        first = {"breaks": [b["name"] for b in self.breaks[len(snap["breaks"]):]],
+                 "monitor": sorted({m["class"] for m in self.monitor[len(snap["monitor"]):]})}
+        for attempt in (1, 2):
+            for k in keys:
+                setattr(self, k, copy.deepcopy(snap[k]))
+            rep = self._engine_once(name, extra_args, timeout, corr_name)
+            bad, died = failed()
+            if bad:
+                self.cov.setdefault("reruns", []).append({"engine": name, "first_run": first, "confirmed_on_rerun": attempt})
+                return rep
+        self.cov.setdefault("reruns", []).append({"engine": name, "first_run": first, "confirmed_on_rerun": None,
+                                                  "note": "not reproduced by two identical reruns (same seed): scheduling noise, not counted"})
+        print("NOTE property=%s engine=%s: a disagreement of the first run (%s) was not reproduced by two identical reruns; not counted" % (self.pid, name, json.dumps(first)))
+        return rep
+
+    def _engine_once(self, name, extra_args=(), timeout=1500, corr_name=None):
         os.makedirs(self.out, exist_ok=True)
         for f in glob.glob(os.path.join(self.out, "cases_%s_*" % name)) + glob.glob(os.path.join(self.out, "%s.json" % name)):
             os.remove(f)
